@@ -22,6 +22,16 @@ type letter struct {
 	// for this letter under the "plain" option set (key = accessor|key).
 	Want map[string]string
 
+	// Request-shape letters (shapes.go): Shape names the class of request shape — the branch of an
+	// accessor (or of fasthttp's parser underneath it) the request steers onto; "" for the general
+	// alphabet. Target overrides the request-target (absolute-form URI), Chunked sends the body
+	// with Transfer-Encoding: chunked in two chunks, Twin is the alphabet index of the letter with
+	// the same shape and the same component lengths but other content (-1: none).
+	Shape   string
+	Target  string
+	Chunked bool
+	Twin    int
+
 	raw  []byte
 	comp map[string]int // byte length of each request component (for the clobber classification)
 }
@@ -31,6 +41,9 @@ func (l *letter) build() {
 	uri := l.Path
 	if l.Query != "" {
 		uri += "?" + l.Query
+	}
+	if l.Target != "" {
+		uri = l.Target
 	}
 	fmt.Fprintf(&b, "%s %s %s\r\n", l.Method, uri, l.Proto)
 	hlen, cookie, host := 0, 0, 0
@@ -44,11 +57,22 @@ func (l *letter) build() {
 			host = len(h[1])
 		}
 	}
-	if l.Body != nil {
-		fmt.Fprintf(&b, "Content-Length: %d\r\n", len(l.Body))
+	switch {
+	case l.Chunked:
+		b.WriteString("Transfer-Encoding: chunked\r\n\r\n")
+		cut := len(l.Body) / 3
+		for _, part := range [][]byte{l.Body[:cut], l.Body[cut:]} {
+			if len(part) > 0 {
+				fmt.Fprintf(&b, "%x\r\n%s\r\n", len(part), part)
+			}
+		}
+		b.WriteString("0\r\n\r\n")
+	case l.Body != nil:
+		fmt.Fprintf(&b, "Content-Length: %d\r\n\r\n", len(l.Body))
+		b.Write(l.Body)
+	default:
+		b.WriteString("\r\n")
 	}
-	b.WriteString("\r\n")
-	b.Write(l.Body)
 	l.raw = b.Bytes()
 	l.comp = map[string]int{
 		"path": len(l.Path), "query": len(l.Query), "uri": len(uri), "proto": len(l.Proto),
@@ -125,7 +149,11 @@ func multipartBody() []byte {
 	return b.Bytes()
 }
 
+// alphabet = the general letters (every one may stand at every position of a history), then the
+// request-shape letters (first request of a shape history), then their twins (followers only).
 var alphabet []*letter
+
+var nGeneral int // number of general letters
 
 func init() {
 	common := func(host, custom, cookie string, more ...[2]string) [][2]string {
@@ -237,9 +265,12 @@ func init() {
 			Hdr:  common("esc.example.com", "esc custom", "sid=esc%20sid"),
 			Want: map[string]string{"Params|id": "%41%20b", "Params|name": "c%2Bd", "Path|": "/u/%41%20b/c%2Bd", "Query|q": "a b c", "Query|tag": "ü", "Cookies|sid": "esc%20sid"}},
 	}
+	nGeneral = len(alphabet)
+	addShapes()
 	for _, l := range alphabet {
 		l.build()
 	}
+	checkTwins()
 	// the equal-length pairs must really be equal-length
 	for _, p := range [][2]string{{"get-first", "get-second-http10"}, {"post-form", "post-form-b"}} {
 		a, b := letterByName(p[0]), letterByName(p[1])
